@@ -332,7 +332,7 @@ mutual
     | .bool b => some (.str (if b then "true" else "false"))
     | .int i => some (.str (String.ofList (intToChars i)))
     | .num r => some (.str r)
-    | .leaf _ p => some (.str p)
+    | .leaf k p => some (if k = "bytes" then .leaf k p else .str p)  -- decoded binary values are data (D11)
     | .arr xs => (allSome (resolveEach env xs)).map fun ys => .arr (pruneList ys)
     | .obj kvs => resolveObj env kvs
   /-- each element separately -/
